@@ -62,6 +62,9 @@ RetRootOps == Structural \cup {"punctuation_delete", "ptb_delete_traces", "inser
 MustRaise(o, A) ==
   \/ o.name = "binarize" /\ \E x \in CNodes(A) : Cardinality(Kids(A, x)) > 2 /\ \A k \in Kids(A, x) : k.a.head = "~"
   \/ o.name = "mark_heads_by_rules" /\ o.preset \notin {"negra", "ptb"}    \* unknown preset / no rule source
+  \* a terminal file that names the same position of a sentence twice is rejected ("double index")
+  \/ o.name \in {"insert_terminals", "substitute_terminals"}
+     /\ \E i, j \in 1..Len(o.rows) : i # j /\ o.rows[i].idx = o.rows[j].idx
 
 StepErrs(e, A, m2) ==
   LET o == OpOf(e) IN
@@ -72,7 +75,9 @@ StepErrs(e, A, m2) ==
   ELSE IF o.name = "filter_by_length" THEN
      F("C11.filter", (e.res = "none") <=> FilterDrops(A, o)) \cup
      (IF e.res = "ok" THEN F("C11.filter_unchanged", e.post.nodes = cur.nodes /\ WFretroot(e.post)) ELSE {})
-  ELSE IF MustRaise(o, A) THEN {IF o.name = "binarize" THEN "C14.bin.rejects_headless" ELSE "C15.rules.rejects"}
+  ELSE IF MustRaise(o, A) THEN {IF o.name = "binarize" THEN "C14.bin.rejects_headless"
+                                ELSE IF o.name = "mark_heads_by_rules" THEN "C15.rules.rejects"
+                                ELSE "C11.rejects_double_index"}
   ELSE LET wf == WFClauses(e.post) IN
     {(IF o.name \in Structural THEN "C04." ELSE "C11.") \o c : c \in wf} \cup
     \* an ill-formed result also breaks the property that describes this operation
